@@ -35,7 +35,7 @@ G2 over Fp² (bn254, bls12-377, bls12-381; section 1e): `setBytes` is translated
 one by one (`p.X.A1.SetBytesCanonical(…)` = base-field decode then `setComp "A1"`; structure `Comps`), `Legendre() == -1` before the unchecked `Sqrt`;
 hypothesis `Rel2`: writing A1 then A0 yields `C.ofComps [a1, a0]` (marshal order A1 | A0), `C.sqrt v = none` iff `Legendre v = -1`, else `Sqrt v`.
 Not covered: G2 over Fp⁴ (bls24-315, bls24-317: translated and `rfl`-tied to one generic text, refinement not proved), `Bytes` / `RawBytes` of the tower G2, the stream Encoder / Decoder,
-`unsafeSetCompressedBytes` / `unsafeComputeY`.
+the two-phase helpers of the slice decoder (`…SetCompressedBytes` / `…ComputeY`, which park the flag in a limb of Y).
 -/
 namespace GV.PointCodec
 open GV GV.Alg GV.PointCodecGo
